@@ -223,6 +223,8 @@ CONTEXTS = [
     'print(nope)', 'x := nope', 'x := 1 + nope', 'x := nope + 1', 'x := [1, nope]', 'x := {"k": nope}', 'x := {nope}', 'x := lst[nope]', 'x := nope[0]', 'x := lst[nope:]', 'x := lst[:nope]', 'x := 0 .. nope', 'x := nope .. 2',
     'x := 0 ..   nope', 'x := two(1, nope)', 'x := nope(1)', 'x := nope.k', 'x := obj[nope]', 'if nope {\n    print(1)\n}', 'while nope {\n    print(1)\n}', 'for [i, v] in nope {\n    print(1)\n}', 'x := $"a${nope}"' if False else 'x := [lst.., nope..]',
     'x := two(lst..,   nope)', 'nope = 1', 'nope += 1', 'lst[nope] = 1', 'obj.k = nope', '[a1, b1] := [1, nope]', 'x := (1 + 2) * nope', 'x := 1 - 2 - nope', 'x := fn () {\n    return nope\n}()', 'x := -1 + nope',
+    # a name in parentheses: still the position of the name
+    'print(  (nope))', 'x := 1 + (  nope)', 'x := (  (nope)) * 2', '(  nope) = 1', '( nope) += 1', 'x := {(  nope)}', 'x := two((1), ( nope))', 'x := ( nope)(1)', 'x := ( nope).k', 'x := lst[( nope)]',
     'x := true && nope', 'x := {"a": 1, "b": [2, {"c": nope}]}', 'x := two(two(1, 2), two(3, nope))', 'x := lst[0:1][nope]', 'x := obj.f(nope)', 'return nope',
     # operator errors: the position of the operator
     'x := 1 + ""', 'x := 1 +   ""', 'x := (1 + 2) *  ""', 'x := lst[0] - "s"', 'x := 1 == ""', 'x := 1 < null', 'x := [] === 1', 'y := 1\ny += ""', 'y := 1\ny   -= ""', 'x := 1 + 2 * "" - 3', 'x := two(1, 2 / "")',
